@@ -1425,6 +1425,10 @@ func main() {
 			c.Count("differs:" + mask)
 			c.Trace()
 			if f0 := h.eval(cs); f0 != nil {
+				if failedClasses[f0.Class] >= 2 {
+					failedClasses[f0.Class]++ // already recorded twice: count, do not shrink again
+					continue
+				}
 				small := h.shrink(cs, f0.Class)
 				f := h.eval(small)
 				if f == nil { // cannot happen (shrink keeps failing cases); be safe
